@@ -776,7 +776,14 @@ def run_pipeline_case(case, keep=None, env=None):
                      VERIF_C20_SCHED_DIR=sdir, VERIF_C20_PID=str(i), VERIF_C20_N=str(n),
                      VERIF_C20_HOLD_USE="1" if case.get("hold_use") else "0")
             entry = [WRAPPER] if case.get("sched") is not None else [os.path.join(env.repo, "isoquant.py")]
-            procs.append((od, subprocess.Popen([vlib.PY] + entry + ["--output", od] + env.args_for(case["anns"][i], case["complete"][i]),
+            extra_args = []
+            if case.get("genedb_output"):
+                # one scratch folder for converted annotations shared by all runs (docs/cmd.md: --genedb_output); with the
+                # pinned code the option is parsed but the database still goes to the run's own output folder
+                gdb = os.path.join(base, "shared_genedb_output")
+                os.makedirs(gdb, exist_ok=True)
+                extra_args = ["--genedb_output", gdb]
+            procs.append((od, subprocess.Popen([vlib.PY] + entry + ["--output", od] + env.args_for(case["anns"][i], case["complete"][i]) + extra_args,
                                                env=e, stdout=subprocess.PIPE, stderr=subprocess.STDOUT, text=True,
                                                cwd=os.path.dirname(od))))
         for i, (od, p) in enumerate(procs):
@@ -864,6 +871,11 @@ def pipeline_cases(ctx):
         # OTHER annotation) runs its whole cache phase (the conversion rewrites X/<name>.db); then B goes on
         {"anns": [0, 2], "complete": [True, True], "outs": ["Y", "X"], "history": [{"ann": 0, "complete": True, "out": "X"}],
          "hold_use": True, "sched": [0] * 6 + [1] * 8 + [0], "name": "shared_target_overwrite"},
+        # two runs with separate output folders, one shared --genedb_output folder and two DIFFERENT annotations of the same file
+        # name: run 0 converts and is held before it uses its database, run 1 converts, run 0 goes on (a change that makes
+        # --genedb_output the target of the conversion lets run 1 overwrite run 0's database: seeded change C20_b3)
+        {"anns": [0, 2], "complete": [True, True], "genedb_output": True, "hold_use": True,
+         "sched": [0] * 12 + [1] * 9 + [0] * 2, "name": "shared_genedb_output_folder"},
         # both runs reach their store in the fixed protocol, then alternate
         {"anns": [0, 1], "complete": [True, True], "sched": [0] * 11 + [1] * 7 + [0, 1, 1, 0], "name": "overlapping_stores"},
         # free-running simultaneous start, equal and different annotations
